@@ -772,3 +772,25 @@ class VecBounds:
             res = (0, self.INF)
         self._summ[k] = res
         return res
+
+
+def subst_upvars(prog, ckey, e, depth=0):
+    """Rewrite references to a closure's captured variables (fields of its environment parameter)
+    by the expressions captured at the creation site, transitively for nested closures."""
+    cc = closure_creation(prog, ckey)
+    if not cc or depth > 4:
+        return e
+    pb, i, j, s, ups = cc
+
+    def fn(x):
+        if x.k == "field" and isinstance(x.a[1], int):
+            base = x.a[0]
+            while base.k in ("deref", "ref"):
+                base = base.a[0]
+            if base.k == "arg" and base.a[0] == 1 and x.a[1] < len(ups):
+                return ups[x.a[1]]
+        return None
+    out = e.rebuild(fn)
+    if prog.fns[pb.key].get("kind") == "Closure":
+        out = subst_upvars(prog, pb.key, out, depth + 1)
+    return out
